@@ -1,13 +1,18 @@
 """C12 - self-hosting fixpoint and determinism.
 
-Proved (Lean): confinement of environment reads over the regenerated import/call-site lists (determinism half).
-NOT proved: stage 1 = stage 2 = stage 3 behaviour.  That half is exercised here as a correspondence leg only
-(differential execution of the stage-1 and stage-2 compilers on a corpus); DESIGN.md C12 says so."""
-import os, hashlib, time
+Proved (Lean): confinement of environment reads over the regenerated import/call-site lists (determinism half), and -
+fixpoint half, static part - that chibicc's own source has no expression whose unsequenced operands conflict, no
+unaccounted uninitialised storage, no pointer used as an ordered or integer value, no order-unstable library call
+(whole-list decide over the audit regenerated from clang-14's typed AST of the nine sources).
+NOT proved: stage 1 = stage 2 = stage 3 behaviour as such.  That is exercised here as a correspondence leg
+(differential execution of the stage-1 / stage-2 / stage-3 compilers on a corpus whose line coverage of the compiler
+is measured with a gcov build on every run); DESIGN.md C12 says so."""
+import os, hashlib, time, shutil
 from .framework import *
+from . import c12_inputs
 
 PROPERTY = 'C12'
-GEN_MODULES = ['envreads']
+GEN_MODULES = ['envreads', 'c12audit']
 LEAN_TARGETS = ['ChibiVerif.Props.C12', 'ChibiVerif.Findings.C12']
 PROPS_FILES = ['ChibiVerif/Props/C12.lean']
 NEEDS_HOOKS = False
@@ -16,8 +21,15 @@ TRUSTED_BASE = [
     'translator tools/extract/envreads.py: nm on the object files of the built snapshot (libc imports) and a brace-tracking scan '
     'of the nine sources for call sites of clock / stat / temp-name functions and for %p conversions',
     'the classification table lean/ChibiVerif/Model/EnvDep.lean of libc functions by what their result depends on (my reading of POSIX)',
-    'NOT covered by any theorem: equality of stage-1/2/3 behaviour and absence of address-dependent control flow in the compiler; '
-    'these are only sampled by the differential leg (stage-1 vs stage-2 binaries on the corpus; ASLR on/off; different pid, cwd, environment, time)',
+    'translator tools/extract/c12audit.py: effect analysis over clang-14\'s typed AST of the nine sources (call-graph fixpoint; field/type based alias '
+    'classes; objects private to the allocating function; libc effect table).  Its soundness is NOT proved; it is self-tested on every run: 18 planted '
+    'expressions (12 order-dependent, 6 harmless) are appended to a scratch copy of strings.c, run through the analysis and through the Lean decision '
+    'function (drv_c12 verdict), and must come out as expected',
+    'the reviewed tables in lean/ChibiVerif/Model/C12Audit.lean (4 expression sites, 24 uninitialised locals, 2 reallocs, 15 pointer comparisons/subtractions): '
+    'my reading of the code, keyed by file, function and source text',
+    'NOT covered by any theorem: equality of stage-1/2/3 behaviour as such; undefined behaviour of the compiler\'s own arithmetic (signed overflow, '
+    'out-of-range shifts and conversions); these are only sampled by the differential leg (stage-1 vs stage-2 binaries on the corpus, directed inputs; '
+    'ASLR on/off; different pid, cwd, environment, time)',
 ]
 ASSUMPTIONS = ['gcc 12 (the reference compiler building stage 1) compiles chibicc correctly',
                'file_exists()/stat on include candidates is a function of the input file system, which counts as input']
@@ -47,12 +59,40 @@ def build_stage(ctx, compiler, name):
     os.symlink(os.path.join(ctx.snapshot, 'include'), os.path.join(d, 'include'))
     return exe, ''
 
-def run_cc(exe, args, cwd, env=None, prefix=()):
-    rc, o, e = sh(list(prefix) + [exe] + args, cwd=cwd, timeout=120, env=env)
+TIME_RE = re.compile(r'"\d\d:\d\d:\d\d"|"[A-Z][a-z]{2} [ \d]\d \d{4}"')
+
+def run_cc(exe, args, cwd, env=None, prefix=(), stdin=None, mask_time=False):
+    rc, o, e = sh(list(prefix) + [exe] + args, cwd=cwd, timeout=120, env=env, input=stdin)
     # the binaries live in different directories and find their headers in <dir of argv[0]>/include:
     # neutralise that one path (it is an option-like input of each binary, not behaviour)
     inc = os.path.dirname(exe) + '/include'
-    return rc, o.replace(inc, '<bindir>/include'), e.replace(inc, '<bindir>/include').replace(os.path.dirname(exe), '<bindir>')
+    o = o.replace(inc, '<bindir>/include')
+    if mask_time:
+        # __DATE__ / __TIME__ are excepted by the property; two runs may straddle a second
+        o = TIME_RE.sub('"<date-or-time>"', o)
+    return rc, o, e.replace(inc, '<bindir>/include').replace(os.path.dirname(exe), '<bindir>')
+
+COVDIR = os.path.join(VERIF, 'corpus', 'C12', 'cov')
+
+def cov_corpus():
+    """corpus/C12/cov/*.c: inputs written to reach the lines of the compiler that nothing else in the corpus executes.
+    First line `// args: <options> | <options> ...` ($D = that directory) or `// stdin: <options> | ...` (the file is
+    fed on standard input); default: -S and -E."""
+    items = []
+    for fn in sorted(os.listdir(COVDIR)):
+        if not fn.endswith('.c'):
+            continue
+        path = os.path.join(COVDIR, fn)
+        raw = open(path, 'rb').read()
+        first = raw[:400].decode('utf-8', 'replace').lstrip('\ufeff').split('\n')[0]
+        m = re.match(r'//\s*(args|stdin):\s*(.*)', first)
+        kind, sets = ('args', [['-S'], ['-E']]) if not m else (m.group(1), [x.split() for x in m.group(2).replace('$D', COVDIR).split('|')])
+        for a in sets:
+            if kind == 'stdin':
+                items.append((f'cov:{fn}', a, '-', raw.decode('utf-8', 'replace')))
+            else:
+                items.append((f'cov:{fn}', a, path, None))
+    return items
 
 def corpus(ctx):
     snap = ctx.snapshot
@@ -145,15 +185,253 @@ def mutate(ctx, text):
         toks.insert(i, rng.choice(['(', ')', '{', '}', ';', '#', '"', 'int', '1e', ',', '->', '...']))
     return ''.join(toks)
 
+def read_input(snap, f):
+    try:
+        return open(f if os.path.isabs(f) else os.path.join(snap, f), errors='replace').read()
+    except OSError:
+        return ''
+
+def run_item(exe, w, snap):
+    label, args, f, stdin = w
+    txt = stdin if stdin is not None else read_input(snap, f)
+    return run_cc(exe, args + ['-o', '-', f], snap, stdin=stdin, mask_time=('__TIME__' in txt or '__DATE__' in txt))
+
+# ------------------------------------------------------------------------------------------------------ driver battery
+def run_battery(exe, d, extra_env=None):
+    """run c12_inputs.BATTERY with `exe` in the fresh directory d; returns one record per command:
+    (rc, stdout, stderr, {file: sha1 of every file created or changed by the command}, output of a produced program)"""
+    for name, text in c12_inputs.FIXTURES.items():
+        path = os.path.join(d, name)
+        os.makedirs(os.path.dirname(path), exist_ok=True)
+        open(path, 'w').write(text)
+    bindir = os.path.dirname(exe)
+    def norm(t):
+        t = t.replace(bindir + '/include', '<bindir>/include').replace(bindir, '<bindir>')
+        return re.sub(r'/tmp/chibicc-[A-Za-z0-9]{6}', '/tmp/chibicc-XXXXXX', t)
+    def digest(pth):
+        """hash of a produced file, up to what legitimately differs between two compilers living in different directories:
+        the <bindir>/include path (in -M / -E output and in DWARF line tables) and the random names of the driver's temporary
+        files, which ld copies into the symbol table of a linked program (STT_FILE of an object without one)"""
+        data = open(pth, 'rb').read()
+        if data[:4] == b'\x7fELF' and len(data) > 18:
+            tmp = pth + '.c12strip'
+            opt = '--strip-debug' if data[16] == 1 else '--strip-all'
+            if sh(['objcopy', opt, pth, tmp])[0] == 0:
+                data = open(tmp, 'rb').read()
+                os.unlink(tmp)
+        else:
+            data = data.replace((bindir + '/include').encode(), b'<bindir>/include').replace(bindir.encode(), b'<bindir>')
+        return hashlib.sha1(data).hexdigest()
+    def state():
+        st = {}
+        for root, dirs, files in os.walk(d):
+            for fn in files:
+                pth = os.path.join(root, fn)
+                if fn.endswith(('.gcda', '.gcno', '.c12strip')):
+                    continue
+                try:
+                    sig = (os.path.getsize(pth), os.stat(pth).st_mtime_ns)
+                    if cache.get(pth, (None, None))[0] != sig:
+                        cache[pth] = (sig, digest(pth))
+                    st[os.path.relpath(pth, d)] = cache[pth][1]
+                except OSError:
+                    pass
+        return st
+    cache = {}
+    out = []
+    before = state()
+    for k, (args, stdin) in enumerate(c12_inputs.BATTERY):
+        if args and args[-1] == 'libb.a' and os.path.exists(os.path.join(d, 'obj.o')) and not os.path.exists(os.path.join(d, 'libb.a')):
+            sh(['ar', 'rcs', 'libb.a', 'obj.o'], cwd=d)
+            before = state()
+        rc, o, e = sh([exe] + args, cwd=d, timeout=120, input=stdin, env=extra_env)
+        after = state()
+        changed = {f: h for f, h in after.items() if before.get(f) != h}
+        ran = None
+        for f in sorted(changed):
+            if re.fullmatch(r'prog\d', f):
+                r2 = sh([os.path.join(d, f)], cwd=d, timeout=20)
+                ran = (f, r2[0], r2[1])
+        out.append((rc, norm(o), norm(e), changed, ran))
+        before = after
+    return out
+
+def link_reproducibility(ctx, corr, stage1):
+    """second sentence of the property on the link step: the same command twice must give the same bytes.  (ld copies the name of
+    an input object into the symbol table as STT_FILE when the object has none; chibicc's objects have none, and the driver's
+    temporary objects have random names.)  Reported through the known-findings mechanism when the finding is listed; otherwise
+    recorded in the evidence as a candidate for the lead."""
+    fid = 'C12-link-tmpname'
+    d = os.path.join(ctx.scratch, 'battery_stage1')
+    outs = []
+    for k in (1, 2):
+        rc, o, e = sh([stage1, '-o', f'repro{k}', 'a.c', 'b.c'], cwd=d, timeout=120)
+        try:
+            outs.append(open(os.path.join(d, f'repro{k}'), 'rb').read())
+        except OSError:
+            outs.append(None)
+    corr.evaluations += 1
+    corr.count('link-reproducibility')
+    if outs[0] is None or outs[0] == outs[1]:
+        return
+    names = sorted(set(re.findall(rb'chibicc-[A-Za-z0-9]{6}', outs[0])) | set(re.findall(rb'chibicc-[A-Za-z0-9]{6}', outs[1])))
+    v = {'what': 'two runs of the same link command produce different executables: the random names of the driver\'s temporary object files are in the symbol table',
+         'input': 'chibicc -o repro a.c b.c (twice)', 'expected': 'byte-identical output', 'got': 'STT_FILE symbols ' + ', '.join(n.decode() for n in names[:4]), 'known_id': fid}
+    listed = any(f.get('id') == fid for f in load_known().get('findings', []))
+    if listed:
+        corr.violations.append(v)
+        corr.known_hits.append(fid)
+    else:
+        corr.extra.setdefault('candidate_findings_not_listed', []).append(v)
+
+# ------------------------------------------------------------------------------------------------------- coverage leg
+def coverage_leg(ctx, corr, work):
+    """Which lines of the compiler does the stage comparison drive?  The snapshot is built a third time with gcc --coverage and
+    run on exactly the inputs that were compared; the line coverage per file, the lines never executed, and the rarely used
+    constructs (Gen/C12AuditGen.rareConstructs) that no input reaches go into the evidence.  Stage 1 executing a source line is
+    the same event as stage 2 executing the code chibicc generated for that line (as long as the two stages agree, which is what
+    is being checked)."""
+    snap = ctx.snapshot
+    d = os.path.join(ctx.scratch, 'covbuild')
+    rc, o, e = sh(['rsync', '-a', '--exclude=*.o', '--exclude=/chibicc', '--exclude=*.gcda', '--exclude=*.gcno', snap + '/', d + '/'])
+    cflags = '-std=c11 -g -fno-common -Wall -Wno-switch -O0 --coverage'
+    rc, o, e = sh(['make', f'-j{NPROC}', 'chibicc', f'CFLAGS={cflags}', 'LDFLAGS=--coverage'], cwd=d, timeout=600)
+    if rc != 0:
+        ctx.notes.append('coverage build failed: ' + (e or o)[-300:])
+        return
+    exe = os.path.join(d, 'chibicc')
+    from concurrent.futures import ThreadPoolExecutor
+    with ThreadPoolExecutor(max_workers=NPROC) as ex:
+        list(ex.map(lambda w: run_item(exe, w, snap), work))
+    bd = os.path.join(ctx.scratch, 'battery_cov')
+    os.makedirs(bd, exist_ok=True)
+    run_battery(exe, bd)
+    rc, o, e = sh(['gcov'] + SRC, cwd=d, timeout=300)
+    per_file, missing, executed, coded = {}, [], set(), set()
+    tot = hit = 0
+    for src in SRC:
+        gp = os.path.join(d, src + '.gcov')
+        if not os.path.exists(gp):
+            ctx.notes.append(f'no gcov output for {src}')
+            continue
+        n = h = 0
+        for line in open(gp, errors='replace'):
+            m = re.match(r'\s*([^:]+):\s*(\d+):(.*)', line)
+            if not m or m.group(2) == '0':
+                continue
+            c = m.group(1).strip()
+            if c == '-':
+                continue
+            n += 1
+            coded.add((src, int(m.group(2))))
+            if c.startswith(('#####', '=====')):
+                missing.append(f'{src}:{m.group(2)}: {m.group(3).strip()[:90]}')
+            else:
+                h += 1
+                executed.add((src, int(m.group(2))))
+        per_file[src] = {'lines': n, 'executed': h, 'percent': round(100.0 * h / max(1, n), 2)}
+        tot += n; hit += h
+    rare = []
+    gen = os.path.join(ctx.lean_dir, 'ChibiVerif/Gen/C12AuditGen.lean')
+    if os.path.exists(gen):
+        txt = open(gen).read()
+        blk = txt[txt.find('def rareConstructs'):txt.find('def featureCount')]
+        rare = [(a, b, int(c)) for a, b, c in re.findall(r'\("((?:[^"\\]|\\.)*)", "([\w.]+)", (\d+)\)', blk)]
+    def reached(f, ln):
+        # gcov attaches no code to lines such as `do {`: the construct counts as reached when the next line that has code was executed
+        for k in range(ln, ln + 4):
+            if (f, k) in executed:
+                return True
+            if (f, k) in coded:
+                return False
+        return False
+    rare_missing = [f'{f}:{ln}: {feat}' for feat, f, ln in rare if not reached(f, ln)]
+    # a call that does not return (error_tok, unreachable) ends its basic block: gcov then has no arc to count and reports the
+    # line as not executed even when it ran; such lines are listed separately
+    noreturn = [m for m in missing if re.search(r'\b(error|error_at|error_tok|unreachable|exit|_exit|usage)\s*\(', m)]
+    corr.extra['stage_comparison_line_coverage'] = {
+        'how': 'gcc --coverage build of the snapshot run on every input of the stage comparison (corpus + directed + generated + driver battery); gcov line counts',
+        'total': {'lines': tot, 'executed': hit, 'percent': round(100.0 * hit / max(1, tot), 2)},
+        'per_file': per_file,
+        'not_executed': [m for m in missing if m not in noreturn][:250],
+        'not_executed_noreturn_calls': noreturn[:120],
+        'rare_constructs': {'listed': len(rare), 'executed': len(rare) - len(rare_missing), 'not_executed': rare_missing},
+    }
+    corr.count('coverage-runs', len(work) + len(c12_inputs.BATTERY))
+    if rare_missing:
+        ctx.notes.append(f'{len(rare_missing)} rarely used construct(s) of the compiler are not reached by any input of the stage comparison: ' + '; '.join(rare_missing[:8]))
+
+# ------------------------------------------------------------------------------------------ self-test of the audit
+def audit_selftest(ctx, corr):
+    """tie of the static audit: planted order-dependent (and harmless) expressions in a scratch copy of the sources must be
+    listed (not listed) by tools/extract/c12audit.py and get the expected verdict from the Lean decision function"""
+    import importlib
+    snap = ctx.snapshot
+    d = os.path.join(ctx.scratch, 'aud')
+    os.makedirs(d, exist_ok=True)
+    for f in SRC + ['chibicc.h']:
+        shutil.copy(os.path.join(snap, f), os.path.join(d, f))
+    open(os.path.join(d, 'strings.c'), 'a').write(c12_inputs.PLANTED_C)
+    sys.path.insert(0, os.path.join(VERIF, 'tools/extract'))
+    try:
+        mod = importlib.import_module('c12audit')
+        a = mod.Audit(d).run()
+    except Exception as ex:
+        corr.disagreements.append({'kind': 'audit-selftest', 'note': f'audit failed on the planted copy: {type(ex).__name__}: {ex}'[:400]})
+        return
+    finally:
+        sys.path.pop(0)
+    by_fn = {}
+    for s in a.sites:
+        if s['file'] == 'strings.c' and s['fn'].startswith('c12'):
+            by_fn.setdefault(s['fn'], []).append(s)
+    lines, order = [], []
+    for fn, ss in sorted(by_fn.items()):
+        for s in ss:
+            locs = sorted({x for op in s['ops'] for x in op[2] + op[3] + op[4]} | set(s['store']))
+            idx = {x: i for i, x in enumerate(locs)}
+            io = ','.join(str(idx[x]) for x in locs if x.startswith('io:'))
+            ops = ';'.join('%d/%d/%s/%s/%s' % (op[0], op[1], ','.join(str(idx[x]) for x in op[2]), ','.join(str(idx[x]) for x in op[3]),
+                                                ','.join(str(idx[x]) for x in op[4])) for op in s['ops'])
+            lines.append('\t'.join([s['file'], fn, s['text'].replace('\t', ' '), io, ','.join(str(idx[x]) for x in s['store']), ops]))
+            order.append(fn)
+    out = ctx.driver('verdict', '\n'.join(lines) + '\n').splitlines() if lines else []
+    got = {}
+    for fn, v in zip(order, out):
+        got.setdefault(fn, []).append(v)
+    for fn, exp in c12_inputs.PLANTED_EXPECT.items():
+        corr.evaluations += 1
+        corr.count('audit-selftest')
+        g = got.get(fn)
+        ok = (g is None) if exp == 'absent' else (g is not None and (('NONE' in g) if exp is None else all(v == exp for v in g)))
+        if ok:
+            corr.nontrivial.add('planted:' + fn)
+        else:
+            corr.disagreements.append({'kind': 'audit-selftest', 'input': fn, 'model': str(g), 'impl': 'expected ' + str(exp if exp else 'listed without verdict'),
+                                       'note': 'planted expression in strings.c: static audit + Lean decision do not classify it as expected'})
+    # the verdict table of the real sources goes into the evidence
+    tbl = ctx.driver('sites', '').splitlines()
+    corr.extra['unsequenced_sites'] = [' | '.join(l.split('\t')[:4]) + ' | ' + l.split('\t')[-1][:100] for l in tbl]
+    corr.extra['audit_entries_without_verdict'] = [l.replace('\t', ' | ') for l in ctx.driver('unaccounted', '').splitlines()]
+
 def correspond(ctx, corr):
     snap = ctx.snapshot
     stage1 = ctx.cc
     corr.rule = ('stage 2 = the sources compiled by the stage-1 binary (gcc-built), stage 3 = the sources compiled by stage 2.  Every corpus '
-                 'input (the nine sources, test/*.c, token-mutated variants as a malformed stream) x option set (-S, -E, -S -fPIC, -S -fcommon) '
-                 "plus generated programs that exercise the compiler's own arithmetic (constant folding, literals, layouts, switch ladders) and the C files kept in the other properties' corpora, is run through stage 1 and stage 2: stdout/output file, diagnostics and exit status must be identical; for the nine sources this "
-                 'is also stage-2 output = stage-3 output.  Determinism: stage 1 is re-run with ASLR disabled, a different environment, cwd and '
-                 'wall-clock second; outputs must be identical.  non-trivial = the output contains at least one function or 40 lines of text; '
-                 'distinct = by (input text, options).')
+                 'input (the nine sources, test/*.c, token-mutated variants as a malformed stream) x option set (-S, -E, -S -fPIC, -S -fcommon), '
+                 'the coverage corpus corpus/C12/cov (inputs written for the lines of the compiler nothing else executes; own option sets, one on stdin), '
+                 'directed inputs (both operands of every operator / call / initializer list not constant, ill-typed or undeclared; the reviewed sites of the '
+                 "audit; operations whose result C leaves undefined in the compiler's own arithmetic), generated programs that exercise the compiler's own "
+                 "arithmetic (constant folding, literals, layouts, switch ladders) and the C files kept in the other properties' corpora, is run through stage 1 "
+                 'and stage 2: stdout/output file, diagnostics and exit status must be identical; for the nine sources this is also stage-2 output = stage-3 '
+                 'output.  Driver battery: 50 command lines (-c/-S/-E/-o, -M family, -x, -include, -D/-U, stdin, assembling, linking static/shared, error exits) '
+                 'in a fresh directory per stage: exit status, stdout, stderr, every file produced (byte-identical) and the output of the linked programs must agree.  '
+                 'Determinism: stage 1 is re-run with ASLR disabled, a different environment, cwd and wall-clock second; outputs must be identical.  '
+                 'Static audit self-test: 18 planted expressions.  non-trivial = the output contains at least one function or 40 lines of text, or a '
+                 'diagnostic with a source position; distinct = by (input text, options).')
+    t0 = time.time()
+    audit_selftest(ctx, corr)
+    log(f'audit self-test {time.time() - t0:.1f}s')
     stage2, err = build_stage(ctx, stage1, 'stage2')
     if stage2 is None:
         corr.violations.append({'what': 'the compiler cannot compile itself', 'detail': err, 'input': 'make stage2/chibicc'})
@@ -166,10 +444,24 @@ def correspond(ctx, corr):
     if not ctx.thorough:
         optsets = optsets[:2] + [optsets[2 + ctx.seed % 2]]
     items = corpus(ctx)
-    work = []
+    work = []     # (label, options, file, stdin text or None)
+    # past failures and the coverage corpus first
+    work += cov_corpus()
     for label, pre, f in items:
         for opts in optsets:
-            work.append((label, pre + opts, f))
+            work.append((label, pre + opts, f, None))
+    ddir = os.path.join(ctx.scratch, 'dir')
+    os.makedirs(ddir, exist_ok=True)
+    for k, (kind, txt) in enumerate(c12_inputs.directed()):
+        p = os.path.join(ddir, f'd{k}.c')
+        open(p, 'w').write(txt)
+        work.append((f'dir:{kind}', ['-S'], p, None))
+        if kind == 'order-pp':
+            work.append((f'dir:{kind}', ['-E'], p, None))
+    for k, txt in enumerate(c12_inputs.random_order(ctx.rng, 150 if not ctx.thorough else 4000)):
+        p = os.path.join(ddir, f'r{k}.c')
+        open(p, 'w').write(txt)
+        work.append(('dir:order-random', ['-S'], p, None))
     # malformed stream
     nmut = 40 if not ctx.thorough else 600
     mdir = os.path.join(ctx.scratch, 'mut')
@@ -180,50 +472,79 @@ def correspond(ctx, corr):
         txt = open(os.path.join(snap, f), errors='replace').read()
         p = os.path.join(mdir, f'm{k}.c')
         open(p, 'w').write(mutate(ctx, txt))
-        work.append((f'mut:{k}:{label}', ['-Iinclude', '-Itest', '-S'], p))
+        work.append((f'mut:{k}:{label}', ['-Iinclude', '-Itest', '-S'], p, None))
     gdir = os.path.join(ctx.scratch, 'gen')
     os.makedirs(gdir, exist_ok=True)
     for k, txt in enumerate(gen_programs(ctx, 60 if not ctx.thorough else 800)):
         p = os.path.join(gdir, f'g{k}.c')
         open(p, 'w').write(txt)
-        work.append((f'gen:{k}', ['-S'], p))
+        work.append((f'gen:{k}', ['-S'], p, None))
     # programs kept by the other properties' checks (their corpora) are inputs here too
     for root, dirs, files in os.walk(os.path.join(VERIF, 'corpus')):
+        if root.startswith(COVDIR):
+            continue
         for fn in sorted(files):
             if fn.endswith('.c'):
-                work.append(('corpus:' + os.path.relpath(os.path.join(root, fn), VERIF), ['-Iinclude', '-S'], os.path.join(root, fn)))
+                work.append(('corpus:' + os.path.relpath(os.path.join(root, fn), VERIF), ['-Iinclude', '-S'], os.path.join(root, fn), None))
+    log(f'stages built {time.time() - t0:.1f}s; {len(work)} inputs')
     from concurrent.futures import ThreadPoolExecutor
     def one(w):
-        label, args, f = w
         res = []
-        for exe in (stage1, stage2, stage3 if label.startswith('src:') else None):
-            if exe is None:
-                res.append(None); continue
-            res.append(run_cc(exe, args + ['-o', '-', f], snap))
+        for exe in (stage1, stage2, stage3 if w[0].startswith('src:') else None):
+            res.append(None if exe is None else run_item(exe, w, snap))
         return w, res
     with ThreadPoolExecutor(max_workers=NPROC) as ex:
         results = list(ex.map(one, work))
-    for (label, args, f), res in results:
+    for (label, args, f, stdin), res in results:
         corr.evaluations += 1
-        corr.count(label.split(':')[0])
+        corr.count(label.split(':')[0] if not label.startswith('dir:') else label)
         r1, r2, r3 = res
-        key = hashlib.sha1((label + ' '.join(args)).encode()).hexdigest()
-        if r1[1].count('\n') >= 40 or '.globl' in r1[1]:
+        key = hashlib.sha1((label + ' '.join(args) + f).encode()).hexdigest()
+        if r1[1].count('\n') >= 40 or '.globl' in r1[1] or re.search(r':\d+: ', r1[2]):
             corr.nontrivial.add(key)
         if r1 != r2:
             which = 'exit status' if r1[0] != r2[0] else ('output' if r1[1] != r2[1] else 'diagnostics')
+            keep_text = stdin is not None or label.startswith(('mut:', 'gen:', 'dir:'))
             corr.violations.append({'what': f'stage 1 and stage 2 compilers differ in {which}', 'input': f, 'options': args,
                                     'stage1': {'rc': r1[0], 'out_sha1': hashlib.sha1(r1[1].encode()).hexdigest(), 'err': r1[2][-300:]},
                                     'stage2': {'rc': r2[0], 'out_sha1': hashlib.sha1(r2[1].encode()).hexdigest(), 'err': r2[2][-300:]},
-                                    'first_diff': first_diff(r1[1], r2[1]),
-                                    'input_text': open(f if os.path.isabs(f) else os.path.join(snap, f), errors='replace').read() if label.startswith(('mut:', 'gen:')) else None})
+                                    'first_diff': first_diff(r1[1], r2[1]) if r1[1] != r2[1] else first_diff(r1[2], r2[2]),
+                                    'stdin': stdin is not None,
+                                    'input_text': (stdin if stdin is not None else read_input(snap, f)) if keep_text else None})
             return
         if r3 is not None and r2 != r3:
             corr.violations.append({'what': 'stage 2 output differs from stage 3 output', 'input': f, 'options': args, 'first_diff': first_diff(r2[1], r3[1])})
             return
         if r1[0] not in (0, 1):
             corr.count('signal-or-odd-status')
-    corr.sample({'input': work[0][2], 'options': work[0][1], 'stage1_rc': results[0][1][0][0], 'output_lines': results[0][1][0][1].count('\n')})
+    src0 = next(i for i, w in enumerate(work) if w[0].startswith('src:'))
+    corr.sample({'input': work[src0][2], 'options': work[src0][1], 'stage1_rc': results[src0][1][0][0], 'output_lines': results[src0][1][0][1].count('\n')})
+    dk = next(i for i, w in enumerate(work) if w[0] == 'dir:order-const-int')
+    corr.sample({'input_text': read_input(snap, work[dk][2]), 'options': work[dk][1], 'stage1_rc': results[dk][1][0][0], 'stage1_diagnostic': results[dk][1][0][2][-160:]})
+    log(f'stage comparison done {time.time() - t0:.1f}s')
+    # driver battery (main.c): same commands in a fresh directory per stage
+    bres = []
+    for name, exe in (('stage1', stage1), ('stage2', stage2)):
+        bd = os.path.join(ctx.scratch, 'battery_' + name)
+        os.makedirs(bd, exist_ok=True)
+        bres.append(run_battery(exe, bd))
+    for k, (x, y) in enumerate(zip(*bres)):
+        corr.evaluations += 1
+        corr.count('driver-battery')
+        if x[3] or x[1]:
+            corr.nontrivial.add(f'battery:{k}')
+        if x != y:
+            what = 'exit status' if x[0] != y[0] else 'stdout' if x[1] != y[1] else 'stderr' if x[2] != y[2] else 'files produced' if x[3] != y[3] else 'behaviour of the linked program'
+            corr.violations.append({'what': f'driver battery: stage 1 and stage 2 differ in {what}', 'input': ' '.join(c12_inputs.BATTERY[k][0]), 'battery_index': k,
+                                    'stage1': {'rc': x[0], 'out': x[1][-300:], 'err': x[2][-300:], 'files': x[3], 'ran': x[4]},
+                                    'stage2': {'rc': y[0], 'out': y[1][-300:], 'err': y[2][-300:], 'files': y[3], 'ran': y[4]}})
+            return
+    corr.sample({'driver_battery_command': ' '.join(c12_inputs.BATTERY[0][0]), 'files_produced': sorted(bres[0][0][3]), 'program_output': bres[0][0][4]})
+    link_reproducibility(ctx, corr, stage1)
+    log(f'driver battery done {time.time() - t0:.1f}s')
+    # line coverage of the compiler under the inputs that were just compared
+    coverage_leg(ctx, corr, work)
+    log(f'coverage leg done {time.time() - t0:.1f}s')
     # determinism of stage 1
     det = [w for w in work if w[0].startswith(('src:', 'test:')) and '-S' in w[1]]
     det = det if ctx.thorough else ctx.rng.sample(det, min(24, len(det)))
@@ -232,7 +553,7 @@ def correspond(ctx, corr):
     prefix = ['setarch', 'x86_64', '-R'] if sh(['setarch', 'x86_64', '-R', 'true'])[0] == 0 else []
     corr.extra['aslr_disabled_leg'] = bool(prefix)
     def two(w):
-        label, args, f = w
+        label, args, f, stdin = w
         txt = open(os.path.join(snap, f), errors='replace').read()
         if re.search(r'__DATE__|__TIME__|__TIMESTAMP__', txt):
             return w, None
@@ -240,7 +561,7 @@ def correspond(ctx, corr):
         b = run_cc(stage1, args + ['-o', '-', f], snap, env=junk_env, prefix=prefix)
         return w, (a, b)
     with ThreadPoolExecutor(max_workers=NPROC) as ex:
-        for (label, args, f), ab in ex.map(two, det):
+        for (label, args, f, stdin), ab in ex.map(two, det):
             if ab is None:
                 corr.count('skipped_date_time'); continue
             corr.evaluations += 1
@@ -258,8 +579,37 @@ def first_diff(a, b):
     return {'line': min(len(la), len(lb)) + 1, 'a': '<end>' if len(la) <= len(lb) else la[len(lb)][:200], 'b': '<end>' if len(lb) <= len(la) else lb[len(la)][:200]}
 
 def search(ctx, broken, corr):
-    """a confinement theorem broke: look for an observable dependence on the environment"""
+    """a theorem or the tie broke.  (a) audit theorem: name the sites without verdict and look for an input on which the two stages
+    differ with a larger directed battery (random operand shapes at every operator); (b) confinement theorem: look for an
+    observable dependence on the environment"""
     snap = ctx.snapshot
+    try:
+        bad = ctx.driver('unaccounted', '').splitlines()
+        if bad:
+            ctx.notes.append('entries of the audit of the compiler\'s own source without a verdict: ' + ' ;; '.join(b.replace('\t', ' | ')[:200] for b in bad[:8]))
+            log('audit entries without verdict:', bad[:8])
+    except Exception as ex:
+        ctx.notes.append(f'drv_c12 unaccounted failed: {ex}'[:200])
+    stage2, err = build_stage(ctx, ctx.cc, 'stage2s')
+    if stage2:
+        d = os.path.join(ctx.scratch, 'search')
+        os.makedirs(d, exist_ok=True)
+        from concurrent.futures import ThreadPoolExecutor
+        def probe(kt):
+            k, txt = kt
+            p = os.path.join(d, f's{k}.c')
+            open(p, 'w').write(txt)
+            w = ('search', ['-S'], p, None)
+            a, b = run_item(ctx.cc, w, snap), run_item(stage2, w, snap)
+            os.unlink(p)
+            return (p, txt, a, b) if a != b else None
+        with ThreadPoolExecutor(max_workers=NPROC) as ex:
+            for r in ex.map(probe, enumerate(c12_inputs.random_order(ctx.rng, 1500 if not ctx.thorough else 8000))):
+                if r:
+                    p, txt, a, b = r
+                    return {'what': 'stage 1 and stage 2 compilers differ (directed search after a broken audit theorem)', 'input': p, 'options': ['-S'], 'input_text': txt,
+                            'stage1': {'rc': a[0], 'err': a[2][-300:]}, 'stage2': {'rc': b[0], 'err': b[2][-300:]},
+                            'first_diff': first_diff(a[1], b[1]) if a[1] != b[1] else first_diff(a[2], b[2])}
     items = corpus(ctx)
     envs = [dict(os.environ, TZ='UTC'), dict(os.environ, TZ='Asia/Tokyo', FOO='bar' * 1000)]
     for label, pre, f in items:
@@ -278,29 +628,58 @@ def search(ctx, broken, corr):
 def replay(ctx, corr, path):
     payload = json.load(open(path))
     f, args = payload.get('input'), payload.get('options')
-    if not f or not args:
+    if payload.get('battery_index') is not None:
+        stage2, err = build_stage(ctx, ctx.cc, 'stage2')
+        res = []
+        for name, exe in (('stage1', ctx.cc), ('stage2', stage2)):
+            bd = os.path.join(ctx.scratch, 'battery_' + name)
+            os.makedirs(bd, exist_ok=True)
+            res.append(run_battery(exe, bd))
+        k = payload['battery_index']
+        corr.evaluations = 1
+        print('replay: driver battery command', k, ' '.join(c12_inputs.BATTERY[k][0]), 'equal' if res[0][k] == res[1][k] else 'DIFFERENT')
+        if res[0][k] != res[1][k]:
+            corr.violations.append({'what': 'driver battery: stage 1 and stage 2 differ', 'input': payload.get('input'), 'stage1': res[0][k][:3], 'stage2': res[1][k][:3]})
+        return
+    if not f or args is None:
         corr.extra['replay'] = 'replay file names a broken theorem, not an input'
         return
+    stdin = None
+    if payload.get('input_text') is not None:
+        if payload.get('stdin'):
+            stdin, f = payload['input_text'], '-'
+        else:
+            f = os.path.join(ctx.scratch, 'replay_input.c')
+            open(f, 'w').write(payload['input_text'])
     stage2, err = build_stage(ctx, ctx.cc, 'stage2')
-    a = run_cc(ctx.cc, args + ['-o', '-', f], ctx.snapshot)
-    b = run_cc(stage2, args + ['-o', '-', f], ctx.snapshot)
+    w = ('replay', args, f, stdin)
+    a = run_item(ctx.cc, w, ctx.snapshot)
+    b = run_item(stage2, w, ctx.snapshot)
     corr.evaluations = 1
     print('replay: stage1 rc', a[0], 'stage2 rc', b[0], 'equal' if a == b else 'DIFFERENT')
     if a != b:
-        corr.violations.append({'what': 'stage 1 and stage 2 differ', 'input': f, 'options': args, 'first_diff': first_diff(a[1], b[1])})
+        corr.violations.append({'what': 'stage 1 and stage 2 differ', 'input': f, 'options': args, 'first_diff': first_diff(a[1], b[1]) if a[1] != b[1] else first_diff(a[2], b[2]),
+                                'input_text': payload.get('input_text')})
 
 MANIFEST = {
-    'level_text': 'PARTIAL. Lean 4 theorems (whole-list decide over lists regenerated from the object files and sources on every run) show the '
+    'level_text': 'PARTIAL. Lean 4 theorems (whole-list decide over lists regenerated from the object files and sources on every run) show (a) the '
                   'determinism half structurally: the compiler imports no libc function outside a classified table, nothing ambient (pid, '
                   'environment, random, cwd, host), reads the clock and file metadata only in the handlers of __DATE__/__TIME__/__TIMESTAMP__ and in '
-                  'include lookup, makes temp names only in the driver, and never formats a pointer. The fixpoint half (stage 1 = stage 2 = stage 3 '
-                  'behaviour) is NOT a theorem: no verified semantics of the C that chibicc is written in is available offline; it is exercised as a '
-                  'correspondence leg only (stage-1 vs stage-2 vs stage-3 binaries on the nine sources, the bundled tests and a malformed stream; '
-                  'ASLR/env/cwd/time variation).',
-    'level_note': 'Trusted: Lean kernel (3 standard axioms), tools/extract/envreads.py (nm + source scan), the libc classification table, gcc 12 as the '
-                  'reference compiler. The differential leg is testing, not proof, and is labelled as such; address-dependent control flow inside '
-                  'the compiler is not excluded by any theorem.',
-    'technique': 'Lean 4 whole-table decide over translator-regenerated import/call-site lists (environment-read confinement); '
-                 'stage-1/2/3 differential execution as the correspondence leg',
+                  'include lookup, makes temp names only in the driver, and never formats a pointer; (b) for the fixpoint half, that chibicc\'s own source does '
+                  'not depend on what C leaves unspecified where that can be audited statically: every expression of the nine sources whose unsequenced / '
+                  'indeterminately sequenced operands both have side effects (or one writes what another reads) is conflict-free by its effect sets or reviewed '
+                  '(C12_no_unsequenced_effects; the class of the eval3 defect repaired in 7b517d1), every uninitialised local / realloc is accounted for, pointers '
+                  'are ordered or subtracted only inside one character buffer and never converted to integers, no order-unstable library call. The fixpoint '
+                  'itself (stage 1 = stage 2 = stage 3 behaviour) is NOT a theorem: no verified semantics of the C that chibicc is written in is available '
+                  'offline; it is exercised as a correspondence leg (stage-1 vs stage-2 vs stage-3 binaries on the nine sources, the bundled tests, a '
+                  'coverage corpus, directed and generated inputs, a malformed stream and a 55-command driver battery; line coverage of the compiler under these '
+                  'inputs is measured with a gcov build on every run and recorded in the evidence; ASLR/env/cwd/time variation).',
+    'level_note': 'Trusted: Lean kernel (3 standard axioms), tools/extract/envreads.py (nm + source scan), the libc classification table, the effect analysis '
+                  'tools/extract/c12audit.py (self-tested on planted expressions each run, soundness not proved) and the reviewed tables of Model/C12Audit.lean, '
+                  'gcc 12 as the reference compiler. The differential leg is testing, not proof, and is labelled as such; undefined behaviour of the compiler\'s '
+                  'own arithmetic is covered by directed inputs only.',
+    'technique': 'Lean 4 whole-table decide over translator-regenerated lists (environment-read confinement; unsequenced-effect / uninitialised-storage / '
+                 'pointer-order audit of the compiler\'s own source from clang-14\'s typed AST); stage-1/2/3 differential execution with measured line coverage '
+                 'as the correspondence leg',
     'design_ref': 'DESIGN.md section 6, C12',
 }
